@@ -80,5 +80,4 @@ package flight12
 //@ ensures cookie-verified: !cfg.InsecureSkipHelloVerify && result0 == Flight4 ==> called("ValidateHelloVerifyRequestResponse") && retErr("ValidateHelloVerifyRequestResponse", 0) == nil
 //@ ensures checked-against-issued-cookie: !cfg.InsecureSkipHelloVerify && result0 == Flight4 ==> sameSlice(argBytes("ValidateHelloVerifyRequestResponse", 2), state.Cookie)
 //@ ensures cookie-kept: sameSlice(state.Cookie, old(state.Cookie))
-//@ ensures vacuity-probe: result1 == nil
 //@ end
